@@ -32,7 +32,7 @@ MONITORS = ["detection", "loaded_content", "mutate_output", "mutate_backup", "in
             "trace_write_opens", "clash_refused_before_io", "second_mutate_idempotent", "decode_error"]
 REQUIRED = ["detected_utf-8", "detected_cp1252", "detected_cp932", "detected_cp949", "undecodable", "custom_try_encodings",
             "explicit_encoding", "native", "memory", "backup_and_output", "valid_under_several", "edit_changes_chart_in_place",
-            "same_path_opened_twice_different_lists"]
+            "same_path_opened_twice_different_lists", "multibyte_char_straddles_1024", "output_and_backup_equal_input"]
 
 DEFAULT = ["utf-8", "cp1252", "cp932", "cp949"]
 SAMPLES = {
@@ -73,6 +73,10 @@ def gen_content(rng, ext):
         lines.append(f"#{k}:{_esc(pick())};")
     lines.append("#OFFSET:0.000;")
     lines.append("#BPMS:0.000=120.000;")
+    if rng.random() < 0.35:
+        # a long run of multi-byte text: some character straddles byte offsets 1024, 2048, 4096, 8192
+        unit = rng.choice(SAMPLES[enc_w]) + rng.choice(["", " ", "a"])
+        lines.append(f"#LYRICS:{_esc(unit * rng.choice([120, 300, 700, 1500]))};")
     for _ in range(rng.choice([0, 1, 1, 2])):
         if ext == "ssc":
             lines.append(f"#NOTEDATA:;{nl}#STEPSTYPE:dance-single;{nl}#DESCRIPTION:{_esc(pick())};{nl}#DIFFICULTY:Hard;{nl}#METER:9;{nl}#NOTES:{nl}0000{nl}0001{nl}1000{nl}0000{nl};")
@@ -240,6 +244,13 @@ def check(ctx, case):
     ctx.feat(case["fs"])
     if case["tried"] is not None:
         ctx.feat("custom_try_encodings")
+    if "enc" in content and len(data) > 1025:
+        try:
+            data[:1024].decode(content["enc"])
+        except UnicodeDecodeError:
+            ctx.feat("multibyte_char_straddles_1024")
+    if case["output"] and case["backup"] == "=input":
+        ctx.feat("output_and_backup_equal_input")
     decodes = [e for e in DEFAULT if ref_detect(data, [e])]
     ctx.outcomes["decodes_under:" + ("+".join(decodes) or "none")] += 1
     if len(decodes) > 1:
@@ -399,7 +410,9 @@ def check(ctx, case):
         ctx.mon("second_mutate_idempotent")
         try:
             _, enc2 = simfile.open_with_detected_encoding(target, strict=case["strict"], **kw, **fskw)
-        except UnicodeDecodeError:
+        except Exception:
+            # the new bytes may decode under an earlier encoding of the list (mojibake, possibly not even
+            # valid MSD): the file is then not "read in the same encoding" and the clause does not apply
             enc2 = None
         if enc2 != want_enc:
             ctx.skip("second mutate: file is read in another encoding (not claimed)")
